@@ -180,7 +180,16 @@ def _gen_value(rng, tog_ids):
 
 def _gen_locals(rng, tog_ids, lo=0, hi=4):
     names = rng.sample(VAR_NAMES, rng.randint(lo, hi))
-    return [(n, _gen_value(rng, tog_ids)) for n in names]
+    out = [(n, _gen_value(rng, tog_ids)) for n in names]
+    if len(names) >= 3 and rng.random() < 0.35:
+        # locals that SHARE sub-objects, one of them unpicklable: a variable that cannot be pickled is skipped "without
+        # affecting the others" — also when the next variable refers to an object the failed one had already reached,
+        # or holds the same object twice (the locals are assigned in this order, so later ones may name earlier ones)
+        a, b, c = names[0], names[1], names[2]
+        out[0] = (a, rng.choice(["[1, 2, 3]", "{'k': (1, 2)}", "P(7)"]))
+        out[1] = (b, rng.choice(["[%s, (lambda: 0)]", "{'x': %s, 'f': (q for q in ())}", "(%s, BadReduce())"]) % a)
+        out[2] = (c, rng.choice(["[%s, %s]", "{'u': %s, 'v': %s}", "(%s, [%s])"]) % (a, a))
+    return out
 
 
 def gen_program(rng, max_steps=8):
